@@ -219,7 +219,7 @@ def execute_scenario(engine, scenario, tag, timeout=None):
 
 def same_failure(v1, v2):
     return (v1 is not None and v2 is not None and v1['oracle'] == v2['oracle']
-            and v1['signature'] == v2['signature'])
+            and v1['signature'] == v2['signature'] and v1.get('op') == v2.get('op'))
 
 
 # --------------------------------------------------------------------------
@@ -396,3 +396,59 @@ def run_batches(engine_name, engine, verif_seed, tier, nruns, jobs, wall_cap, on
                     done_runs += 1
                     on_result(rec)
     return dict(truncated=truncated, wall=time.monotonic() - t0, runs=done_runs)
+
+
+class Union(Engine):
+    """Several sub-engines behind one property: each run draws its sub-engine."""
+
+    def __init__(self, prop, subs, **kw):
+        self.prop = prop
+        self.subs = subs          # list of (weight, engine)
+        for _, e in subs:
+            e.prop = prop
+        for k, v in kw.items():
+            setattr(self, k, v)
+
+    def _sub(self, scenario):
+        return self.subs[scenario['sub']][1]
+
+    def gen(self, rng, i, tier):
+        k = rng.choices(range(len(self.subs)), [w for w, _ in self.subs])[0]
+        sc = self.subs[k][1].gen(rng, i, tier)
+        sc['sub'] = k
+        return sc
+
+    def run(self, scenario, sandbox, emit):
+        return self._sub(scenario).run(scenario, sandbox, emit)
+
+    def judge_death(self, scenario, events, sig, code):
+        return self._sub(scenario).judge_death(scenario, events, sig, code)
+
+    def judge_timeout(self, scenario, events):
+        return self._sub(scenario).judge_timeout(scenario, events)
+
+    def shrink_keep_prefix(self, scenario):
+        return self._sub(scenario).shrink_keep_prefix(scenario)
+
+    def simplify(self, scenario):
+        for c in self._sub(scenario).simplify(scenario):
+            c['sub'] = scenario['sub']
+            yield c
+
+    def features(self, scenario, violation):
+        return [f'sub={type(self._sub(scenario)).__name__}'] + self._sub(scenario).features(scenario, violation)
+
+    def nontrivial(self, scenario, stats):
+        return self._sub(scenario).nontrivial(scenario, stats)
+
+    def rule(self):
+        return ' || '.join(e.rule() for _, e in self.subs)
+
+    def components(self):
+        c = {'real': [], 'stub': []}
+        for _, e in self.subs:
+            for k in c:
+                for x in e.components()[k]:
+                    if x not in c[k]:
+                        c[k].append(x)
+        return c
